@@ -235,3 +235,22 @@ def free_running(ctx):
     ctx.valid()
     if not np.array_equal(np.asarray(single), np.asarray(serial[1])):
         ctx.violation("parallel-differs", "a single diagram with n_jobs=2 differs from the serial result")
+    # collections of LARGE diagrams (1500 pairs each): the workers really overlap in time, on every backend and
+    # with whatever backend hint the library itself passes to joblib (free-running: real OS scheduling)
+    from checks.c04 import big_diagram
+
+    big = [np.array(big_diagram(1500), dtype=float) + 0.01 * k for k in range(8)]
+    for imb in (make(1, 1.0, 0, WEIGHTS[0]), make(1, 1.0, 2, WEIGHTS[3])):
+        serial_b = ctx.call(imb.transform, big)
+        runs = [("library default", None, 4), ("library default", None, 8), ("threading", "threading", 4), ("loky", "loky", 3)]
+        for what, backend, nj in runs:
+            ctx.state(("free-big", what, nj))
+            if backend is None:
+                out = ctx.call(imb.transform, big, n_jobs=nj)
+            else:
+                with joblib.parallel_config(backend=backend):
+                    out = ctx.call(imb.transform, big, n_jobs=nj)
+            ctx.valid()
+            if not (len(out) == len(serial_b) and all(np.array_equal(np.asarray(a), np.asarray(b)) for a, b in zip(out, serial_b))):
+                ctx.violation("parallel-differs", "transform of 8 diagrams of 1500 pairs with n_jobs=%d (%s backend) differs from the serial result" % (nj, what))
+    ctx.nontriv("large_collection_free_running")
